@@ -555,6 +555,24 @@ def m_split_at(c, p, mid):
     return Agg([Ptr(Cell(SeqView(s, 0, m), 'l'), ()), Ptr(Cell(SeqView(s, m, n - m), 'r'), ())], 'tuple')
 
 
+@model(r'^(?:\w+::)*slice::<impl \[.*\]>::(windows|chunks|chunks_exact)$')
+def m_windows(c, p, size):
+    ip = c.ip
+    s = seq(ip, p)
+    n = len(s.items)
+    k = concrete_int(ip, size, c.m.group(1), n + 2)
+    if k == 0:
+        raise Panic(c.callee, 'size is zero')
+    from .collections_ import IterV
+    if c.m.group(1) == 'windows':
+        starts = [(i, k) for i in range(0, n - k + 1)]
+    else:
+        starts = [(i, min(k, n - i)) for i in range(0, n, k)]
+        if c.m.group(1) == 'chunks_exact':
+            starts = [x for x in starts if x[1] == k]
+    return IterV([Ptr(Cell(SeqView(s, i, m), 'window'), ()) for i, m in starts])
+
+
 @model(r'^(?:std::vec::)?Vec::<.*>::(push)$|^(?:std::collections::)?VecDeque::<.*>::(push_back)$')
 def m_vec_push(c, p, v):
     put(c.ip, p, [v])
